@@ -143,4 +143,98 @@ theorem roundRat_decode_normal (x : F64) (h1 : 1 ≤ expBits x) (h2 : expBits x 
     have h3 : (((0 : Nat) : Int)) - (((-((expBits x : Int) - 1075)).toNat : Nat) : Int) = (expBits x : Int) - 1075 := by omega
     rw [h3]; exact hfin
 
+
+/-! ### subnormal doubles and zeros -/
+
+theorem rpFinish_subnormal_toNat (neg : Bool) (m : Nat) (e' : Int) (hm : m < 2 ^ 52) :
+    (rpFinish neg m e').toNat = (if neg then 2 ^ 63 else 0) + m := by
+  unfold rpFinish
+  rw [if_neg (by omega)]
+  dsimp only
+  have hb : (UInt64.ofNat m).toNat = m := by rw [UInt64.toNat_ofNat']; exact Nat.mod_eq_of_lt (by omega)
+  cases neg
+  · simp only [Bool.false_eq_true, if_false, hb, Nat.zero_add]
+  · simp only [if_true]
+    rw [UInt64.toNat_or, hb]
+    have h2 : (0x8000000000000000 : UInt64).toNat = 2 ^ 63 * 1 := by decide
+    rw [h2, Nat.or_comm, ← Nat.two_pow_add_eq_or_of_lt (by omega)]
+
+theorem rpCore_subnormal (m : Nat) (hm0 : 0 < m) (hm : m < 2 ^ 52) :
+    rpCore (m * 2 ^ (58 - m.log2)) ((m.log2 : Int) - 1132) = (m, -1074) := by
+  have hL : m.log2 ≤ 51 := by have := (Nat.log2_lt (by omega)).2 hm; omega
+  have hlo := Nat.log2_self_le (n := m) (by omega)
+  have hhi := Nat.lt_log2_self (n := m)
+  have hpos : 0 < 2 ^ (58 - m.log2) := Nat.two_pow_pos _
+  have hlog : (m * 2 ^ (58 - m.log2)).log2 = 58 := by
+    rw [Nat.log2_eq_iff (by have := Nat.mul_pos hm0 hpos; omega)]
+    constructor
+    · calc 2 ^ 58 = 2 ^ m.log2 * 2 ^ (58 - m.log2) := by rw [← Nat.pow_add]; congr 1; omega
+        _ ≤ _ := Nat.mul_le_mul_right _ hlo
+    · calc m * 2 ^ (58 - m.log2) < 2 ^ (m.log2 + 1) * 2 ^ (58 - m.log2) := Nat.mul_lt_mul_of_pos_right hhi hpos
+        _ = 2 ^ (58 + 1) := by rw [← Nat.pow_add]; congr 1; omega
+  unfold rpCore
+  dsimp only
+  have hshift : max ((((m * 2 ^ (58 - m.log2)).log2 : Nat) : Int) + 1 - 53) (-1074 - ((m.log2 : Int) - 1132)) =
+      ((58 - m.log2 : Nat) : Int) := by rw [hlog]; omega
+  rw [hshift, if_neg (by omega), Int.toNat_natCast, Nat.shiftRight_eq_div_pow, Nat.mul_div_cancel _ hpos,
+    Nat.mul_mod_left]
+  have hhalf : 0 < 2 ^ (58 - m.log2 - 1) := Nat.two_pow_pos _
+  have hc : ¬ (0 > 2 ^ (58 - m.log2 - 1) ∨ (0 = 2 ^ (58 - m.log2 - 1) ∧ m % 2 = 1)) := by omega
+  rw [if_neg hc, if_neg (by omega)]
+  congr 1; omega
+
+/-- a subnormal double (biased exponent 0, significand m ≠ 0) is the rounding of its exact value m / 2^1074 -/
+theorem roundRat_subnormal (neg : Bool) (m : Nat) (hm0 : 0 < m) (hm : m < 2 ^ 52) :
+    (roundRat neg m (2 ^ 1074)).toNat = (if neg then 2 ^ 63 else 0) + m := by
+  have hL : m.log2 ≤ 51 := by have := (Nat.log2_lt (by omega)).2 hm; omega
+  have hl2 : (2 ^ 1074).log2 = 1074 := Nat.log2_two_pow
+  unfold roundRat
+  rw [if_neg (by omega), hl2]
+  have hk : (57 : Int) + ((1074 : Nat) : Int) - (m.log2 : Int) ≥ 0 := by omega
+  simp only [hk, if_true]
+  have hkn : ((57 : Int) + ((1074 : Nat) : Int) - (m.log2 : Int)).toNat = (57 - m.log2) + 1074 := by omega
+  rw [hkn, Nat.shiftLeft_eq, Nat.pow_add, ← Nat.mul_assoc, Nat.mul_div_cancel _ (Nat.two_pow_pos _), Nat.mul_mod_left]
+  simp only [if_true]
+  have h2 : 2 * (m * 2 ^ (57 - m.log2)) + 0 = m * 2 ^ (58 - m.log2) := by
+    have : 58 - m.log2 = (57 - m.log2) + 1 := by omega
+    rw [this, Nat.pow_succ]; generalize 2 ^ (57 - m.log2) = P
+    rw [Nat.add_zero, ← Nat.mul_assoc, Nat.mul_comm 2 m, Nat.mul_assoc, Nat.mul_comm 2 P]
+  have he : -((57 : Int) + ((1074 : Nat) : Int) - (m.log2 : Int)) - 1 = (m.log2 : Int) - 1132 := by omega
+  rw [h2, he, roundPack_eq, if_neg (by have := Nat.mul_pos hm0 (Nat.two_pow_pos (58 - m.log2)); omega),
+    rpCore_subnormal m hm0 hm]
+  exact rpFinish_subnormal_toNat neg m _ hm
+
+/-- `roundRat_exact`, every finite double: x is what `roundRat` returns on its own exact value m·2^e
+    (m, e = `decode x`; numerator and denominator as `searchShortest` builds them). No rounding happens. -/
+theorem roundRat_decode (x : F64) (hfin : expBits x < 2047) :
+    roundRat (sign x) (if (decode x).2 ≥ 0 then (decode x).1 * 2 ^ (decode x).2.toNat else (decode x).1)
+      (if (decode x).2 ≥ 0 then 1 else 2 ^ (-(decode x).2).toNat) = x := by
+  by_cases h1 : 1 ≤ expBits x
+  · exact roundRat_decode_normal x h1 hfin
+  · have h0 : expBits x = 0 := by omega
+    have hd : decode x = (manBits x, -1074) := by unfold decode; rw [if_pos h0]
+    rw [hd]
+    have hneg : ¬ ((-1074 : Int) ≥ 0) := by decide
+    simp only [hneg, if_false]
+    have h74 : (-(-1074 : Int)).toNat = 1074 := by decide
+    rw [h74]
+    have hM : manBits x < 2 ^ 52 := by rw [manBits_eq]; exact Nat.mod_lt _ (by decide)
+    have hx : x.toNat = (if sign x then 2 ^ 63 else 0) + manBits x := by
+      have he := expBits_eq x
+      have hm := manBits_eq x
+      have hs := sign_eq x
+      have hlt := x.toNat_lt
+      rw [hs, hm]
+      by_cases h63 : 2 ^ 63 ≤ x.toNat
+      · simp only [h63, decide_true, if_true]; omega
+      · simp only [h63, decide_false, Bool.false_eq_true, if_false]; omega
+    apply UInt64.toNat_inj.mp
+    by_cases hm0 : manBits x = 0
+    · rw [hm0] at hx ⊢
+      unfold roundRat
+      rw [if_pos rfl, hx]
+      cases sign x <;> decide
+    · rw [roundRat_subnormal (sign x) (manBits x) (by omega) hM, hx]
+
 end NodisVerif.Proofs.FloatDecRound
+
